@@ -397,6 +397,10 @@ static int refex_exec_core(struct xm *m, const struct xcmd *c, const char *(*fil
 		int i;
 		if (m->modified)
 			return 1;
+		if (!strcmp(c->arg, "true")) {		/* a filter that prints nothing: the lines go */
+			xm_splice(m, b, e + 1, "");
+			return 0;
+		}
 		xm_range_text(m, b, e, up, sizeof(up));
 		for (i = 0; up[i]; i++)
 			if (up[i] == 'o')
